@@ -554,6 +554,12 @@ def _case(block, w, fault):
     if fault and fault[0] == 'undriven':
         label = 'in:' + fault[1]
     elif fault and fault[0] in ('disconnect', 'reattach'):
+        # the same objects are first checked while still well-formed (must be accepted), then damaged in place:
+        # the verdict of the second check must not depend on anything remembered from the first
+        pre = integrity(hw)
+        if pre is not None:
+            return {'expected': 'accepted before the fault is applied', 'got': pre, 'violates': True,
+                    'label': 'precheck', 'why': 'well-formed hierarchy refused'}
         dw = driven_wires(hw)
         wire = dw[fault[1]]
         port = wire.source
@@ -701,6 +707,48 @@ def run_selfdup(d):
                                                  'final_source': None if x is None or x.getSource() is None else x.getSource().name}})
         else:
             res['distinct_nontrivial'] += 1
+    # an in/out pin of a block on an ordinary wire that already has a driver, and duplicate wire names where one of the
+    # two is a bidirectional wire: all must raise and leave the earlier driver / wire in place
+    w = d['w']
+
+    def direct(name, f, keep):
+        hw = HWSystem()
+        raised = None
+        try:
+            first = f(hw)
+        except Exception as e:
+            raised = e
+            first = None
+        res['evaluations'] += 1
+        res['configs'] += 1
+        ok = raised is not None and keep(hw)
+        if ok:
+            res['distinct_nontrivial'] += 1
+        else:
+            res['violations'].append({'sig': 'C11:direct:%s:%s' % ('not-raised' if raised is None else 'earlier-entity-replaced', name),
+                                      'shard': d, 'trace': [name], 'detail': {'case': name, 'raised': repr(raised)[:200]}})
+
+    def inout_after_driver(hw):
+        pad = hw.wire('pad', w)
+        hw._k = py4hw.Constant(hw, 'k', 1, pad)
+        py4hw.BidirBuf(hw, 'bb', hw.wire('pin', w), hw.wire('pout', w), hw.wire('poe'), pad)
+    direct('inout_pin_on_driven_plain_wire', inout_after_driver,
+           lambda hw: hw._wires['pad'].getSource() is not None and hw._wires['pad'].getSource().parent is hw._k)
+
+    def wire_then_bidir(hw):
+        hw._first = hw.wire('x', w)
+        hw.bidir_wire('x', w)
+    direct('wire_then_bidir_wire_same_name', wire_then_bidir, lambda hw: hw._wires.get('x') is hw._first)
+
+    def bidir_then_bidir(hw):
+        hw._first = hw.bidir_wire('x', w)
+        hw.bidir_wire('x', w)
+    direct('bidir_wire_twice_same_name', bidir_then_bidir, lambda hw: hw._wires.get('x') is hw._first)
+
+    def bidir_then_wire(hw):
+        hw._first = hw.bidir_wire('x', w)
+        hw.wire('x', w)
+    direct('bidir_wire_then_wire_same_name', bidir_then_wire, lambda hw: hw._wires.get('x') is hw._first)
     res['samples'].append({'selfdup_blocks': sorted(_selfdup_cases(d['w']))})
     return res
 
